@@ -20,6 +20,7 @@ import (
 	"bytes"
 	"crypto"
 	"crypto/x509"
+	"slices"
 
 	"github.com/dadrus/heimdall/internal/heimdall"
 	"github.com/dadrus/heimdall/internal/x/errorchain"
@@ -48,6 +49,10 @@ func buildChain(chain []*x509.Certificate, issuerCandidates []*x509.Certificate)
 
 	for _, candidate := range issuerCandidates {
 		if child.Equal(candidate) {
+			continue
+		} else if slices.ContainsFunc(chain, candidate.Equal) {
+			// already part of the chain (certificates naming each other as issuer, like cross signed
+			// certificates, or different self-signed certificates sharing a subject). Following it would never end
 			continue
 		} else if isIssuerOf(child, candidate) {
 			return buildChain(append(chain, candidate), issuerCandidates)
